@@ -167,6 +167,12 @@ def stream_case(ctx, dec, msgs, damage, spec_base):
     good = [m.bytes for i, m in enumerate(msgs) if i not in damage]
     detect = [damage[i][2] for i in sorted(damage) if damage[i][3] in ('invalid', 'unknown-descriptor')]
     unjudged = [damage[i][2] for i in sorted(damage) if damage[i][3] not in ('invalid', 'unknown-descriptor')]
+    # a damaged section LENGTH can make the header of the message unreadable; the scan then cannot know where the message ends and
+    # resumes byte by byte - a complete message embedded in its payload may be found.  Not judged (either behaviour is defensible);
+    # with any other damage the declared total length is available and nothing inside the skipped message may be delivered
+    for i in damage:
+        if damage[i][0] == 'section-length' and getattr(msgs[i], 'inner_bytes', None):
+            unjudged.append(msgs[i].inner_bytes)
     kinds = sorted(set(damage[i][0] for i in damage))
     spec = dict(spec_base, stream_hex=stream.hex(), n_messages=len(msgs),
                 damaged={str(i): list(damage[i][:2]) + [damage[i][3]] for i in damage})
@@ -223,7 +229,7 @@ def stream_case(ctx, dec, msgs, damage, spec_base):
     else:
         alld = [damage[i][2] for i in damage]
         core = [g for g in got if g in good]
-        extra = [g for g in got if g not in good and g not in alld]
+        extra = [g for g in got if g not in good and g not in alld and g not in unjudged]
         if core != good:
             ctx.violate('continue-on-error/info-only/undamaged-lost-or-reordered/%s' % ksig,
                         'info-only scan delivered %d of %d undamaged messages' % (len(core), len(good)), spec)
@@ -336,6 +342,21 @@ def run(ctx):
                 ctx.count('pool_messages_with_221_or_replication')
             except Exception:
                 pass
+        # a message whose character payload holds the text 7777 followed by a complete (smaller) message: when IT is damaged and
+        # skipped, nothing inside it may be delivered
+        for attempt in range(4):
+            try:
+                k += 2
+                inner = streams.small_message(rng, k, data_category=3)
+                outer = streams.make_message(rng, k + 1, inner=b'7777' + inner.bytes)
+                dec.process(outer.bytes)
+                outer.inner_bytes = inner.bytes
+                if len(outer.bytes) <= 600:
+                    pool.append(outer)
+                    ctx.count('pool_messages_with_inner_message')
+                    break
+            except Exception:
+                continue
         # the decoder object is reused throughout; it has also served lenient decodes
         # (ignore_value_expectation=True applies to THAT call only)
         for m in pool[:3]:
